@@ -29,7 +29,7 @@ fn nodes(v: &BV) -> usize {
 pub fn run(ctx: &Ctx) -> Report {
     let mut rep = Report::new();
     let mut r = ctx.rng("c15");
-    let n = ctx.count(100_000, 3_000_000);
+    let n = ctx.count(400_000, 4_000_000);
     let g = Gen { max_depth: 6, max_items: 5, max_str: 40 };
     rep.need("roundtrips_checked", 1000);
     rep.need("canonical_docs_checked", 1000);
